@@ -21,12 +21,29 @@ def mentions_any(t, names):
     return False
 
 
+def relates_data_to_address(t):
+    """does the term combine input data (a read of M0) with a region address *outside* the index of such a read?
+    (`M0[mbuff_base + 8] < 5` is data only; `M0[mbuff_base + 8] < stack_base` relates data to an address)"""
+    from z3 import Z3_OP_SELECT
+    seen = set(); stack = [t]; data = False; base = False
+    while stack:
+        x = stack.pop(); i = x.get_id()
+        if i in seen: continue
+        seen.add(i)
+        if x.num_args() == 0:
+            n = x.decl().name()
+            if any(n == b or n.startswith(b) or (b in ('rsp', 'base') and b in n) for b in BASES): base = True
+        elif x.decl().kind() == Z3_OP_SELECT and x.arg(0).num_args() == 0 and x.arg(0).decl().name() == 'M0': data = True      # do not look inside the index
+        else: stack.extend(x.children())
+    return data and base
+
+
 def validate(pr, drv, name, S, both, predictions, prog, vm='mbuff', helpers=(), fixed=None):
     """predictions: {'interp': term, 'jit'|'cranelift': term}"""
     v = pr.out.setdefault('validation', dict(instances=0, agree=0, skipped=0))
-    if helpers or any(mentions_any(simplify(t), BASES) for t in predictions.values()): v['skipped'] += 1; return
+    if helpers or any(relates_data_to_address(simplify(t)) or (mentions_any(simplify(t), BASES) and not mentions_any(simplify(t), ('M0',))) for t in predictions.values()): v['skipped'] += 1; return
     # a path condition relating input data to a region address (a data-derived pointer, a comparison with r10) cannot be reproduced natively: the addresses differ
-    if any(mentions_any(c, BASES) and mentions_any(c, ('M0',)) for c in both): v['skipped'] += 1; return
+    if any(relates_data_to_address(c) for c in both): v['skipped'] += 1; return
     r, m = pr.check(both, [ULE(S.mem_len, 64), ULE(S.mbuff_len, 64), UGE(S.mbuff_len, 32), UGE(S.mem_len, 16)])
     if r != 'sat': r, m = pr.check(both, [ULE(S.mem_len, 2048), ULE(S.mbuff_len, 2048)])
     if r != 'sat': v['skipped'] += 1; return
